@@ -16,6 +16,7 @@ from collections.abc import Callable
 import orjson
 import numpy as np
 from pint import Unit  # pylint: disable=unused-import
+from pint.errors import OffsetUnitCalculusError
 try:
     from pint.quantity import Quantity  # pylint: disable=unused-import
 except ImportError:
@@ -169,6 +170,24 @@ class UnitsSerializer(Serializer):
 
     # Here the differing argument is `unit`, which is optional, so we
     # can ignore the pylint warning.
+    @staticmethod
+    def _parse_quantity(text: str) -> Any:
+        """Parse ``<magnitude> <units>`` as printed by ``str()``.
+
+        Offset units (``25 degree_Celsius``) cannot be evaluated as the
+        product pint's expression parser makes of them, so build the
+        quantity from its two parts in that case.
+        """
+        try:
+            return units(text)
+        except OffsetUnitCalculusError:
+            magnitude, _, unit_str = text.partition(' ')
+            try:
+                number: Union[int, float] = int(magnitude)
+            except ValueError:
+                number = float(magnitude)
+            return units.Quantity(number, unit_str)
+
     def deserialize(self, data: str, unit=None):  # type: ignore  # pylint: disable=arguments-differ
         """Deserialize data with units from a human-readable string.
 
@@ -210,9 +229,10 @@ class UnitsSerializer(Serializer):
                 # with a magnitude of 1 in place of the nan. Units whose
                 # names merely start with 'nan' (nanometer) are not nan.
                 unit_str = '1' + data[len('nan'):]
-                unit_data = math.nan * units(unit_str)
+                unit_data = units.Quantity(
+                    math.nan, self._parse_quantity(unit_str).units)
             else:
-                unit_data = units(data)
+                unit_data = self._parse_quantity(data)
             if unit is not None:
                 unit_data.to(unit)  # type: ignore
         return unit_data
